@@ -71,3 +71,33 @@ PROPS["C07"] = {
     "stubs": [],
     "assumptions": ["replicas = 1 for processes that are depended upon (see known finding on replicated dependencies)", "project values built directly (YAML decoding outside)"],
 }
+
+PROPS["C12"] = {
+    "harnesses": [
+        {"pkg": "app", "name": "VerifC12_RevDeps3", "quick": {}, "thorough": {}, "replay_repeat": 40,
+         "bounds": {"N": 3, "edges": "all 2^6 dependency relations", "running": "all subsets", "map order": "every iteration order"}},
+    ],
+    "stubs": [],
+    "assumptions": [],
+}
+
+PROPS["C15"] = {
+    "harnesses": [
+        {"pkg": "loader", "name": "VerifC15_Env", "quick": {},
+         "bounds": {"base entries": "<=2", "override entries": "<=1", "keys": "{A,B}", "values": "every byte string over {'=','x'} of length <=2"}},
+        {"pkg": "loader", "name": "VerifC15_EnvDeep", "thorough": {},
+         "bounds": {"base entries": "<=2", "override entries": "<=1", "keys": "{A,B}", "values": "every byte string over {'=','x'} of length <=3"}},
+    ],
+    "stubs": ["mergo.Map on two flat maps: override wins by key (natively the real mergo runs)"],
+    "assumptions": ["mergo's reflective deep merge of ProcessConfig is trusted (third party)", "YAML decoding outside"],
+}
+
+PROPS["C17"] = {
+    "harnesses": [
+        {"pkg": "app", "name": "VerifC17_Launch", "quick": {}, "thorough": {},
+         "bounds": {"layers": "inherited/global/per-process, <=1 entry each", "keys": "A (all layers), PC_PROC_NAME/PC_REPLICA_NUM (inherited)",
+                    "values": "byte strings over {x,y} len<=1", "replica_num": "[0,99]"}},
+    ],
+    "stubs": ["os.Environ bound to the harness list (natively the real environment is replaced by it)", "exec: last duplicate wins"],
+    "assumptions": ["global and per-process lists do not themselves define PC_PROC_NAME / PC_REPLICA_NUM"],
+}
